@@ -420,6 +420,13 @@ def gen_program(rnd):
             kinds.append("halt")
     if "halt" not in kinds:
         kinds[-1] = "halt"
+    force = {}
+    if n >= 4 and rnd.random() < 0.45:
+        # several self-contained halting blocks with the same code (and sometimes one that differs)
+        t0 = rnd.randrange(3)
+        for i in range(max(1, n - rnd.randint(2, 3)), n):
+            kinds[i] = "halt"
+            force[i] = t0 if rnd.random() < 0.8 else rnd.randrange(3)
     succ = {}
     for i in range(n):
         if kinds[i] in ("empty", "jmp"):
@@ -430,6 +437,11 @@ def gen_program(rnd):
             succ[i] = [a, b]
         else:
             succ[i] = []
+    for i in force:
+        js = [j for j in range(n) if succ[j]]
+        if js:
+            j = rnd.choice(js)
+            succ[j][rnd.randrange(len(succ[j]))] = i
     preds = {i: [] for i in range(n)}
     for i in range(n):
         for s in dict.fromkeys(succ[i]):
@@ -447,18 +459,18 @@ def gen_program(rnd):
     for i in range(n):
         if kinds[i] == "empty":
             continue
-        if i and kinds[i] == "halt" and rnd.random() < 0.6:
+        if i and kinds[i] == "halt" and (i in force or rnd.random() < 0.6):
             # self-contained halting block (TailMergePass candidates: few templates, so duplicates are frequent)
-            t = rnd.randrange(3)
+            t = force.get(i, rnd.randrange(3))
             v = fresh()
             if t == 0:
-                body[i] = [f"{v} = {rnd.choice([5, 6])}", f"mstore 0, {v}"]
+                body[i] = [f"{v} = {5 if i in force else rnd.choice([5, 6])}", f"mstore 0, {v}"]
             elif t == 1:
                 w = fresh()
                 body[i] = [f"{v} = calldataload 0", f"{w} = add {v}, 1", f"mstore 32, {w}"]
             else:
                 body[i] = []
-            closed[i] = rnd.choice(["revert 0, 32", "return 0, 64"])
+            closed[i] = "revert 0, 32" if i in force else rnd.choice(["revert 0, 32", "return 0, 64"])
             continue
         avail = list(entry_vars) if i else []
         k = rnd.randint(0, 3)
